@@ -176,6 +176,63 @@ def bindE {V E} (zeros : List V) (g f : Stage V E) : Result V E :=
     match f.run v with
     | (r, e) => { res := r, err := e, log := [(0, []), (1, v)] }
 
+/-! ### helpers that return a FUNCTION value: what has been evaluated when the helper returns
+
+"Each stage exactly once" needs a point in time. For the helpers whose result is a function there are
+two: the moment the helper returns, and every later invocation of the returned function.
+
+* compose, toerror (and the C15 wrappers) return a function literal around the stages: building it
+  evaluates nothing; every INVOCATION runs the chain above, i.e. every stage at most once per
+  invocation, left to right (`compose` / `toError` are the meaning of one invocation).
+* the error form of fmap for an `f` with two or more results is the only helper that returns a function
+  holding already evaluated results: `return deriveTuple(f(v)), nil` runs `g` and then `f` before it
+  returns, and the returned function only hands the stored results out — `f` runs exactly once, no
+  matter whether the returned function is called zero, one or many times. That is `Thunk`.
+-/
+
+/-- a function value `func() (results…)` returned by a helper -/
+structure Thunk (V E : Type) where
+  vals : List V            -- the non-error results it yields
+  err : Option E           -- the error it yields as last result (`deriveJoin(deriveFmap(f, g))`: f's own)
+  perCall : Log V          -- the calls EVERY invocation performs (emitted code: none)
+  deriving DecidableEq, Repr
+
+/-- one invocation of the returned function -/
+def Thunk.invoke {V E} (t : Thunk V E) : Result V E := { res := t.vals, err := t.err, log := t.perCall }
+
+/-- the log after `n` invocations of the returned function, starting from the log `l0` at the return
+of the helper -/
+def Thunk.logAfter {V E} (t : Thunk V E) (l0 : Log V) : Nat → Log V
+  | 0 => l0
+  | n + 1 => t.logAfter l0 n ++ t.perCall
+
+structure FnResult (V E : Type) where
+  fn : Option (Thunk V E)  -- `none` = the nil function
+  err : Option E
+  log : Log V              -- the calls made by the time the helper returns
+  deriving DecidableEq, Repr
+
+/-- fmap, error form, `f` with ≥ 2 results (`f`'s last result may be an error: it stays inside):
+```go
+v, err := g()
+if err != nil { return nil, err }
+return deriveTuple(f(v)), nil       // f(v) is evaluated HERE; deriveTuple stores its results
+``` -/
+def fmapEFn {V E} (g f : Stage V E) : FnResult V E :=
+  match g.run [] with
+  | (_, some e) => { fn := none, err := some e, log := [(0, [])] }
+  | (v, none) =>
+    match f.run v with
+    | (r, e) => { fn := some { vals := r, err := e, perCall := [] }, err := none, log := [(0, []), (1, v)] }
+
+/-- `deriveJoin(fn, err)` on a function value: `if err != nil { return zeros, err }; return fn()`.
+`none` = calling the nil function (a Go panic; unreachable after `fmapEFn`) -/
+def joinFn {V E} (zeros : List V) (fn : Option (Thunk V E)) (err : Option E) : Option (Result V E) :=
+  match err, fn with
+  | some e, _ => some { res := zeros, err := some e, log := [] }
+  | none, some t => some t.invoke
+  | none, none => none
+
 /-! ### plugin/traverse -/
 
 structure TResult (V E : Type) where
